@@ -3,6 +3,7 @@ import Bee2V.C03.Sponge
 import Bee2V.C03.Brng
 import Bee2V.C03.Botp
 import Bee2V.C03.BeltDrv
+import Bee2V.C03.F32Drv
 import Bee2V.Base.Proto
 /-! line protocol of `drv_c03` (grammar: see props/C03.py) -/
 namespace Bee2V.C03.Drv
@@ -279,6 +280,9 @@ def hDT : List String → Option String
 
 def dispatch (toks : List String) : String :=
   match Belt.handleBelt toks with
+  | some r => r
+  | none =>
+  match F32.handleF32 toks with
   | some r => r
   | none =>
     let r := match toks with
